@@ -573,6 +573,16 @@ func verifC11TopKNaN(S int) {
 			}
 		}
 	}
+	// NaN is not one of the k largest or smallest values: it takes a place
+	// only when the group has fewer than k numbers (the repository's own
+	// ordering since the repair of F45: Less/Greater rank NaN last)
+	for i := 0; i < S; i++ {
+		for j := 0; j < S; j++ {
+			if picked[i] && vs[i] != vs[i] && !picked[j] && vs[j] == vs[j] {
+				vsymAssert(false, "a NaN series is returned by topk/bottomk only when the group has fewer than k numbers: here a number was dropped in favour of NaN")
+			}
+		}
+	}
 	vsymReach("C11_topk_nan")
 }
 
